@@ -112,7 +112,7 @@ def cases(rng, tier):
             for (m, n) in ((3, 3), (4, 5), (6, 2)):
                 name, q0, q1 = _classes(rng, m, n)[3]
                 out.append(_mk_case(rng, m, n, q0, q1, cplx, entries, tag=name))
-    n_extra = {'quick': 120, 'thorough': 600, 'search': 300}[tier]
+    n_extra = {'quick': 300, 'thorough': 600, 'search': 300}[tier]
     for _ in range(n_extra):
         m, n = rng.randint(1, 6), rng.randint(1, 6)
         name, q0, q1 = rng.choice(_classes(rng, m, n))
@@ -124,7 +124,7 @@ def cases(rng, tier):
                     for q1 in itertools.product(range(3), repeat=n):
                         out.append(_mk_case(rng, m, n, list(q0), list(q1), tag='enum012'))
     # magnitude regimes: power-of-two multiples (exact) of a sample of the cases above
-    for c in rng.sample(out, min(len(out), {'quick': 60, 'thorough': 300, 'search': 60}[tier])):
+    for c in rng.sample(out, min(len(out), {'quick': 120, 'thorough': 300, 'search': 60}[tier])):
         k = rng.choice([-60, -40, -30, -27, 30])
         f = 2.0 ** k
         c2 = dict(c)
